@@ -225,6 +225,7 @@ fn judge(kind: TypeInfoKind, value: Value, fixed_point: Option<FixedPoint>, idx:
 }
 
 pub fn run(ctx: &Ctx) {
+    ctx.enable_trace_pass(ctx.tier.pick(20000u64, 200000u64));
     ctx.set_rule("case = (kind, value, fixed-point data); complete product of the alphabets; non-trivial = fixed-point kind with data and an integer value (the conversion formula is actually evaluated)");
     ctx.assume("exactness is judged for integer values of up to 64 bits (the statement's formula uses double precision; 128-bit values are only checked for no-panic and for the 'Some only if' clause)");
     let ks = kinds();
